@@ -27,7 +27,7 @@ SPEC = dict(
     # every case = every setting of the reflected table (45 at this commit) started up once through the
     # real loader with one source combination, plus `len` string-level expansion ops; the 16 combinations
     # rotate over cases and shards, so 48 cases = each (setting, combination) pair with 3 value draws
-    quick=dict(cases=48, len=40, shards=8),
+    quick=dict(cases=48, len=30, shards=8),
     thorough=dict(cases=1600, len=60, shards=16),
     nontrivial=nontrivial,
     rule="a case runs EVERY setting of the table enumerated by reflection from the real config structs on this run "
